@@ -7,7 +7,9 @@ P = "pdpverif.props.c18:"
 
 META = {
     "claim": "inductive argument instead of histories: (1) every assembly -- succeeding, failing or dying -- leaves the module-level state "
-             "I = {try_compute.depth == 0, Awaiting.awaiting_stack == [], handle_reports.handlers_stack == []} intact for all input values; (2) "
+             "I = {try_compute.depth == 0, Awaiting.awaiting_stack == [], handle_reports.handlers_stack == []} intact for all input values, and "
+             "leaves every module-level and class-level container of every pdpy11 module (dict/list/set: caches, memo tables, registries) with "
+             "the same size and keys; (2) "
              "the result of a probe program (status, base, bytes, diagnostics with kinds and positions) is the same from every I-state, "
              "whatever Deferred.next_instance_id is, and it is NOT the same from a state violating I (so I is not vacuous); (3) explicit "
              "histories of two earlier assemblies drawn from valid/invalid/crashing programs change nothing; (4) assembling one parsed "
@@ -15,7 +17,7 @@ META = {
     "technique": "CrossHair symbolic execution of whole assemblies from symbolic module states (Deferred.next_instance_id any n >= 1, "
                  "try_compute.depth any k >= 0) and with symbolic program values; z3 decides state restoration and result equality",
     "bounds": "14 step templates (valid, failing at parse/compile/link time, critical, cyclic, crashing) with all integer values; histories of "
-              "length 2 over a 7-program catalogue (49 ordered pairs, realised) before a probe with a symbolic value; next_instance_id: every "
+              "length 2 over a 9-program catalogue (thorough: all 81 ordered pairs; quick: 25 per probe, realised) before a probe with a symbolic value; next_instance_id: every "
               "n >= 1; depth: every k >= 0",
     "outside": ["hash randomisation (PYTHONHASHSEED) is a property of process start-up, not of any function that can be executed symbolically; "
                 "pdpy11 iterates only lists and insertion-ordered dicts (no set iteration, no hash() use -- by reading), stated as an argument, "
@@ -39,15 +41,58 @@ STEPS = [
     ("cycle-size", "x: .blkb y-x+{V}\ny:\n"),
     ("recursive-link", ".link L + {V}\nL: nop\n"),
     ("user-error", ".word {V}\n.error stop\n"),
+    ("rad50-invalid", ".rad50 \"A#B\"\n.word {V}\n"),
+    ("rad50-valid", ".rad50 \"AB9\" <1>\n.word ^RXYZ + {V}\n"),
+    ("strings", ".ascii \"ab\\n\" <12>\n.asciz /xy/\n.even\n.word 'a + {V}, \"bc\n"),
+    ("repeat-nested", ".repeat 2 { .repeat 2 { .word . + {V} } }\n"),
+    ("outputs", "make_bin \"o.bin\"\nmake_wav \"o.wav\", \"NAME\"\nmake_raw\n.word {V}\n"),
+    ("fp-and-aliases", "ldf {V}(r1), ac1\nstf ac2, @#100\npush r0\ncall sub\nsub: ret\nsob r1, sub\n"),
+    ("caret-nested", ".word ^/ ^|5| + 2 /\n.word {V}\n"),
+    ("caret-top", ".word ^|6/2|, ^_7_\n.word {V}\n"),
+    ("caret-bad-nesting", ".word ^/ ^|6 / 2| + 2 /\n.word {V}\n"),
 ]
 PROBE = "P0: mov #{V}, P1\nP1: .word P0, und3f + 1\n.byte {V}\nbr P0\n"   # an error program: diagnostics with positions are compared too
 PROBE_OK = "P0: mov #{V}, P1\nP1: .word P0, P1 - P0\nlater = P1 + {V}\n.word later\nbr P0\n"
-HISTORY = [s for s in STEPS if s[0] in ("valid", "range-error", "parse-critical", "branch-error", "undefined", "recursive-link", "cycle-size")]
+HISTORY = [s for s in STEPS if s[0] in ("valid", "range-error", "parse-critical", "branch-error", "undefined", "recursive-link", "cycle-size",
+                                        "caret-nested", "caret-top")]
+PROBE_CARET = ".word ^|6/2|, ^/ ^|{V}| + 2 /, ^_{V}_\n.word ^/ ^|6 / 2| + 2 /\n"  # the second line is invalid on purpose
 
 
 def module_state():
     from pdpy11 import deferred, reports
     return (deferred.try_compute.depth, len(deferred.Awaiting.awaiting_stack), len(reports.handle_reports.handlers_stack))
+
+
+def container_census():
+    """Every module-level and class-level mutable container of every pdpy11 module: (where, type, size, keys).
+    An assembly may not leave anything behind in any of them (caches, memo tables, registries ...)."""
+    import sys
+    from ..common import notrace
+    out = []
+    with notrace():
+        for mname in sorted(m for m in sys.modules if m == "pdpy11" or m.startswith("pdpy11.")):
+            mod = sys.modules[mname]
+            if mod is None:
+                continue
+
+            def visit(where, val):
+                inner = getattr(val, "container", None)
+                if isinstance(inner, dict):
+                    val = inner
+                if isinstance(val, dict):
+                    out.append((where, "dict", len(val), sorted(map(repr, val.keys()))[:400]))
+                elif isinstance(val, (list, set, frozenset, bytearray)):
+                    out.append((where, type(val).__name__, len(val), None))
+
+            for name, val in sorted(vars(mod).items()):
+                if name.startswith("__") or name == "_verif_real_parse":
+                    continue
+                visit(f"{mname}.{name}", val)
+                if isinstance(val, type) and getattr(val, "__module__", None) == mname:
+                    for an, av in sorted(vars(val).items()):
+                        if not an.startswith("__"):
+                            visit(f"{mname}.{name}.{an}", av)
+    return out
 
 
 def snapshot(o):
@@ -58,11 +103,13 @@ def h_step(params, vals, ctx):
     if params.get("vmax") is not None:
         require(-params["vmax"] <= vals["V"] <= params["vmax"])  # the message renders the value with str()
     reset_module_state()
+    before = container_census()
     o = assemble([("/w/s.mac", params["text"])], vals, route=ctx.route, reset=False)
     ctx.observe_outcome(o)
     ctx.reach(True)
     d, a, h = module_state()
-    return d == 0 and a == 0 and h == 0
+    after = container_census()
+    return d == 0 and a == 0 and h == 0 and before == after
 
 
 def h_instance_id(params, vals, ctx):
@@ -100,6 +147,8 @@ def h_depth_matters(params, vals, ctx):
 def h_history(params, vals, ctx):
     i, j = vals["I"], vals["J"]
     require(0 <= i < len(HISTORY) and 0 <= j < len(HISTORY))
+    if params.get("subset"):
+        require(HISTORY[concretize(i)][0] in params["subset"] and HISTORY[concretize(j)][0] in params["subset"])
     require(-300 < vals["V"] < 300)
     require(-8 <= vals["W"] <= 8)
     i, j = concretize(i), concretize(j)
@@ -112,6 +161,13 @@ def h_history(params, vals, ctx):
     ctx.observe_outcome(fresh)
     ctx.observe_outcome(after)
     ctx.reach(True)
+    if params.get("expect_words") is not None:
+        # independent of any earlier assembly in this process (including the 'fresh' one above): the reference value of each word
+        if after.status != "ok":
+            return False
+        for k, (c0, cv) in enumerate(params["expect_words"]):
+            if not (after.code[2 * k] + 256 * after.code[2 * k + 1] == (c0 + cv * vals["V"]) % 65536):
+                return False
     return snapshot(fresh) == snapshot(after)
 
 
@@ -131,11 +187,14 @@ def obligations(tier, seed):
     for name, text in STEPS:
         obs.append(Ob(oid=f"step/{name}", harness=P + "h_step", params={"text": text, "vmax": 8 if name == "recursive-link" else None}, vars={"V": "int"}, timeout=300, per_path=90,
                       note=text.replace("\n", " / "), pre="every integer V"))
-    for name, text in (("error-probe", PROBE), ("ok-probe", PROBE_OK)):
+    for name, text in (("error-probe", PROBE), ("ok-probe", PROBE_OK), ("caret-probe", PROBE_CARET), ("caret-ok-probe", ".word ^|6/2|, ^/ ^|{V}| + 2 /\n")):
         obs.append(Ob(oid=f"instance-id/{name}", harness=P + "h_instance_id", params={"text": text}, vars={"N": "int", "V": "int"}, timeout=300,
                       pre="next_instance_id any n >= 1"))
         obs.append(Ob(oid=f"twice/{name}", harness=P + "h_twice", params={"text": text}, vars={"V": "int"}, timeout=300))
-        obs.append(Ob(oid=f"history/{name}", harness=P + "h_history", params={"probe": text}, vars={"I": "int", "J": "int", "V": "int", "W": "int"},
+        sub = None if tier == "thorough" else (["valid", "parse-critical", "cycle-size", "caret-nested", "caret-top"] if "caret" in name else
+                                               ["valid", "range-error", "parse-critical", "undefined", "cycle-size"])
+        expect = [[3, 0], [2, 1]] if name == "caret-ok-probe" else None
+        obs.append(Ob(oid=f"history/{name}", harness=P + "h_history", params={"probe": text, "subset": sub, "expect_words": expect}, vars={"I": "int", "J": "int", "V": "int", "W": "int"},
                       timeout=1500, per_path=120, pre="two earlier assemblies, any ordered pair of the 7-program catalogue"))
     obs.append(Ob(oid="depth-matters", harness=P + "h_depth_matters", params={}, vars={"K": "int"}, timeout=300, pre="try_compute.depth any k >= 0"))
     return obs
